@@ -167,6 +167,15 @@ class Spec:
 _spec_cache = {}
 
 
+def global_substs():
+    """Rewrites applied to every proved function (all `count=*`): std items that would otherwise put a changed function
+    outside the modelled subset although a contract can judge them (contracts/_global.spec)."""
+    path = os.path.join(VERIF, "contracts", "_global.spec")
+    if "_global" not in _spec_cache:
+        _spec_cache["_global"] = Spec("_global", path).substs if os.path.exists(path) else []
+    return _spec_cache["_global"]
+
+
 def load_spec(key):
     if key not in _spec_cache:
         path = os.path.join(VERIF, "contracts", key + ".spec")
@@ -255,6 +264,7 @@ class Unit:
         self.serves = []
         self.tier = "A"
         self.broadcasts = []
+        self.no_global = set()
 
     def emit(self, text, origin=None):
         for l in text.split("\n"):
@@ -266,7 +276,7 @@ class Unit:
 
 def splice_function(u, spec, mode, canary=False, variants=(), rename=None):
     job = {"file": os.path.join(REPO, spec.file), "selector": spec.selector, "rules": spec.rules,
-           "hints": spec.hints, "substs": spec.substs if mode == "prove" else
+           "hints": spec.hints, "substs": (spec.substs + [g for g in global_substs() if g["name"].split(".")[0] not in u.no_global]) if mode == "prove" else
            [s for s in spec.substs if s["name"].startswith("sig")]}
     if spec.nth is not None:
         job["nth"] = spec.nth
@@ -469,6 +479,8 @@ def _expand(u, path, canary):
             u.serves = s.split()[1:]
         elif s.startswith("//@tier"):
             u.tier = s.split()[1]
+        elif s.startswith("//@no-global"):
+            u.no_global |= set(s.split()[1:])
         elif s.startswith("//@broadcast-here"):
             u.emit("//@@BROADCAST@@", ("tpl", rel, ln))
         elif s.startswith("//@broadcast"):
